@@ -19,8 +19,16 @@ def check_graph(ctx, nu, nv, edges, ref_size, in_situ=False, graph=None, cover=N
         if budget is not None:
             budget[0].start(budget[1])
         try:
-            matching = ptn.HopcroftKarp(g)()
+            solver = ptn.HopcroftKarp(g)
+            matching = solver()
             steps_m = budget[0].count if budget else 0
+            # the same solver object called again must return a maximum matching again (no state carried over between runs)
+            for rep in range(2):
+                again = solver()
+                ok_again = (isinstance(again, list) and len(again) == ref_size and all(p in eset for p in again)
+                            and len({p[0] for p in again}) == len(again) and len({p[1] for p in again}) == len(again))
+                if not ctx.ok('matching.repeated-call-on-same-solver', ok_again, f'call {rep + 2} on the same HopcroftKarp object returned {again} (maximum {ref_size})', detail, s):
+                    return False
             if budget is not None:
                 budget[0].start(budget[1])
             cover = ptn.minimum_vertex_cover(g)
@@ -70,11 +78,14 @@ def make_exhaustive(maxn, minprod=0, ref='brute'):
             r = matcher(nu, nv, edges)
             # fast path: identical conditions evaluated inline; the detailed (recording) oracle runs only on a failure
             g = ptn.BipartiteGraph(nu, nv, edges)
-            matching = ptn.HopcroftKarp(g)()
+            solver = ptn.HopcroftKarp(g)
+            matching = solver()
+            again = solver()
             uc, vc = ptn.minimum_vertex_cover(g)
             eset = set(edges)
             ucs, vcs = set(uc), set(vc)
             if (len(matching) == r and len(uc) + len(vc) == r and all(p in eset for p in matching)
+                    and len(again) == r and all(p in eset for p in again) and len({p[0] for p in again}) == r and len({p[1] for p in again}) == r
                     and len({p[0] for p in matching}) == r and len({p[1] for p in matching}) == r
                     and all(0 <= u < nu for u in uc) and all(0 <= v < nv for v in vc) and len(ucs) == len(uc) and len(vcs) == len(vc)
                     and all((u in ucs) or (v in vcs) for (u, v) in edges)):
@@ -82,7 +93,7 @@ def make_exhaustive(maxn, minprod=0, ref='brute'):
             else:
                 ctx.cur_info = {'nu': nu, 'nv': nv, 'edges': edges}
                 check_graph(ctx, nu, nv, edges, r)
-        for mname in ('matching.is-list-of-pairs', 'matching.subset-of-edges', 'matching.vertex-disjoint', 'matching.maximum',
+        for mname in ('matching.repeated-call-on-same-solver', 'matching.is-list-of-pairs', 'matching.subset-of-edges', 'matching.vertex-disjoint', 'matching.maximum',
                       'cover.in-range', 'cover.touches-every-edge', 'cover.minimum'):
             ctx.count_n(mname, good)
         ne = hi - lo
@@ -201,14 +212,14 @@ def insitu_case(ctx, idx, rng):
 
 SPEC = {
     'id': 'C18',
-    'rule': ('exhaustive: every edge set of every partition nu x nv <= 4x4 against a brute-force maximum matching (quick and thorough); '
+    'rule': ('every graph is solved by one HopcroftKarp object that is then called two more times (each result must be a maximum matching); exhaustive: every edge set of every partition nu x nv <= 4x4 against a brute-force maximum matching (quick and thorough); '
              'thorough adds every edge set of the partitions with nu*nv > 16 up to 5x5 against Kuhn\'s algorithm; every ORDERED edge list with repetitions '
              '(length <= nu*nv+1) for shapes with nu*nv <= 4 and random duplicate-padded lists whose length hits nu*nv, nu*nv+-1, nu, nv, nu+nv; random graphs up to 60x60 '
              '(empty, sparse, dense, complete, duplicate edges, long augmenting paths) with a logical-step budget 50(U+V+E)^2+1000 counted by '
              'sys.monitoring (function entries, loop back-edges, branches inside bipartite_graph.py); in situ: every per-site bipartite problem '
              'raised by from_opchains for built-in/molecular Hamiltonians and random chain lists. Non-trivial = at least one edge and more '
              'than one vertex pair; distinct = (shape or density class, size class, orientation, matching-size class).'),
-    'deciding': ['matching.maximum', 'matching.subset-of-edges', 'matching.vertex-disjoint', 'cover.touches-every-edge', 'cover.minimum',
+    'deciding': ['matching.repeated-call-on-same-solver', 'matching.maximum', 'matching.subset-of-edges', 'matching.vertex-disjoint', 'cover.touches-every-edge', 'cover.minimum',
                  'termination.steps-within-budget'],
     'workloads': [
         Workload('exhaustive4', ex4, quick=ex4.count, thorough=ex4.count,
